@@ -22,16 +22,16 @@ P = {
  "C03": ("metamorphic monitor: recorded match sets of the real search under shift/permutation/pattern motion/hints/RNG schedule/supercell compared after renaming",
          "Relations between pairs of observed executions on synthetic structures and the repository's real MOF files.",
          "4 C03"),
- "C04": ("offline diff of recorded replace events keyed by unique atom ids (charges) against the set of found matches and sampled indices",
+ "C04": ("offline diff of recorded replace events keyed by unique atom ids (charges) against the set of found matches and the selection (observed draw, or read off the result when the draw is made in a way the harness does not see)",
          "Every replacement's recorded history (find result, sample draw, extend/delete calls, input snapshots) is checked atom-by-atom.",
          "4 C04"),
- "C05": ("rigid-fit oracle over observed correspondences (hooked find result + hooked extend calls), in-cell check, joint-motion metamorphic relation",
+ "C05": ("rigid-fit oracle over observed correspondences (hooked find result; inserted atoms read off the returned structure by their ids and assigned to matches by position; observed insertion calls cross-checked as a set), in-cell check, joint-motion metamorphic relation",
          "Placement of inserted atoms is verified against the frame of the matched pattern modulo the lattice for orthorhombic and triclinic cells.",
          "4 C05"),
  "C06": ("reference-model monitor: resolved model (type ids resolved to coefficient text) predicted by a small executable model and compared after each real replacement, also after a LAMMPS write + independent read",
          "Chains of replacements on structures with pre-existing typed terms; model vs real after every step.",
          "4 C06"),
- "C07": ("pure-function oracle over recorded find/sample events deciding raise / no-raise, plus conservation of atom ids",
+ "C07": ("pure-function oracle over recorded find/sample events (scripted and observed draws; random-generator state fingerprints tell whether an error depended on a draw) deciding raise / no-raise, plus conservation of atom ids",
          "Overlap structures (chains, stars, rings) in every sharing combination; expected outcome computed from observed matches.",
          "4 C07"),
  "C08": ("history monitor over two-step replacement sequences (self-replacement, A->B->A) on synthetic and real MOF files",
